@@ -84,7 +84,7 @@ Definition covered (cls name : string) : bool :=
          || String.eqb name "Piola-Kirchhoff" || String.eqb name "Green-Lagrange"
   end.
 
-Definition expected (cls : string) (dim : nat) (name : string) : option entry :=
+Definition expected (cls : string) (dim edim sdim : nat) (name : string) : option entry :=
   match name with
   | String c1 (String c2 EmptyString) =>
       match src_of c1, axis_of c2 with
@@ -104,7 +104,7 @@ Definition expected (cls : string) (dim : nat) (name : string) : option entry :=
       else
         match axis_of c2, axis_of c3 with
         | Some a, Some b =>
-            match km_index dim a b with
+            match km_index (if Ascii.eqb c1 "S" then sdim else edim) a b with
             | Some k => Some (ETens (Ascii.eqb c1 "S") k (negb (a =? b)%nat && kelvin cls))
             | None => None
             end
@@ -156,7 +156,7 @@ Fixpoint lookup (name : string) (l : list (string * entry)) : option entry :=
 
 Definition check_name (t : simtab) (name : string) : bool :=
   if covered (t_class t) name then
-    match expected (t_class t) (t_dim t) name, lookup name (t_tab t) with
+    match expected (t_class t) (t_dim t) (t_edim t) (t_sdim t) name, lookup name (t_tab t) with
     | Some e, Some e' => entry_eqb e e'
     | _, _ => false
     end
@@ -192,7 +192,7 @@ Eval vm_compute in ("UNADVERTISED_BRANCHES", unadvertised_branches).
 Theorem component_wiring :
   forall t, In t all_tables ->
   forall name, In name (t_adv t) -> covered (t_class t) name = true ->
-  exists e, expected (t_class t) (t_dim t) name = Some e /\ lookup name (t_tab t) = Some e.
+  exists e, expected (t_class t) (t_dim t) (t_edim t) (t_sdim t) name = Some e /\ lookup name (t_tab t) = Some e.
 Proof.
   assert (H : forallb (fun t => forallb (check_name t) (t_adv t)) all_tables = true)
     by (vm_compute; reflexivity).
@@ -200,7 +200,7 @@ Proof.
   rewrite forallb_forall in H. specialize (H t Ht).
   rewrite forallb_forall in H. specialize (H name Hn).
   unfold check_name in H. rewrite Hc in H.
-  destruct (expected (t_class t) (t_dim t) name) as [e|]; [|discriminate].
+  destruct (expected (t_class t) (t_dim t) (t_edim t) (t_sdim t) name) as [e|]; [|discriminate].
   destruct (lookup name (t_tab t)) as [e'|]; [|discriminate].
   apply entry_eqb_eq in H. subst. exists e'. split; reflexivity.
 Qed.
@@ -241,20 +241,22 @@ Print Assumptions branches_are_advertised.
 (* ---------- non-vacuity ---------- *)
 Example wiring_nonvacuous :
   exists t name, In t all_tables /\ In name (t_adv t) /\ covered (t_class t) name = true /\
-                 expected (t_class t) (t_dim t) name = Some (ETens true 2 true).
+                 expected (t_class t) (t_dim t) (t_edim t) (t_sdim t) name = Some (ETens true 2 true).
 Proof.
   exists tab_Elastic_dim2, "Sxy". vm_compute. repeat split; auto 40.
 Qed.
 
 Example spec_examples :
-  expected "Elastic" 3 "Syz" = Some (ETens true 3 true) /\
-  expected "Elastic" 3 "Exz" = Some (ETens false 4 true) /\
-  expected "Elastic" 3 "Sxy" = Some (ETens true 5 true) /\
-  expected "Elastic" 2 "Sxy" = Some (ETens true 2 true) /\
-  expected "Elastic" 2 "Szz" = None /\
-  expected "WeakForms" 3 "vz" = Some (ECol SV 2) /\
-  expected "Elastic" 2 "az" = None /\
-  expected "Beam" 3 "ry'" = Some (ETens false 2 false) /\
-  expected "Beam" 2 "rz" = Some (ECol SU 2) /\
-  expected "Beam" 2 "Sxy" = Some (ETens true 2 false).
+  expected "Elastic" 3 3 3 "Syz" = Some (ETens true 3 true) /\
+  expected "Elastic" 3 3 3 "Exz" = Some (ETens false 4 true) /\
+  expected "Elastic" 3 3 3 "Sxy" = Some (ETens true 5 true) /\
+  expected "Elastic" 2 2 2 "Sxy" = Some (ETens true 2 true) /\
+  expected "Elastic" 2 2 2 "Szz" = None /\
+  expected "WeakForms" 3 3 3 "vz" = Some (ECol SV 2) /\
+  expected "Elastic" 2 2 2 "az" = None /\
+  expected "Beam" 3 3 3 "ry'" = Some (ETens false 2 false) /\
+  expected "Beam" 2 2 2 "rz" = Some (ECol SU 2) /\
+  expected "Beam" 2 2 2 "Sxy" = Some (ETens true 2 false) /\
+  expected "HyperElastic" 2 3 2 "Exy" = Some (ETens false 5 true) /\
+  expected "HyperElastic" 2 3 2 "Sxy" = Some (ETens true 2 true).
 Proof. vm_compute. repeat split. Qed.
